@@ -7,6 +7,7 @@
 
 pub mod monitors;
 pub mod receiver;
+pub mod recovery;
 pub mod regmon;
 pub mod stream;
 pub mod c04_shell;
